@@ -31,6 +31,11 @@ STUBS = ["Terminal.width -> the chosen width W (class-level property patched fro
 ASSUMPTIONS = ["terminal model: a line of exactly W characters followed by LF uses one row (pending-wrap), as xterm-like terminals do"]
 
 
+class TtyBuffer(BufferedOutputStream):
+    def supports_ansi(self):
+        return True
+
+
 class Screen:
     def __init__(self, w):
         self.w, self.rows, self.r, self.c = w, [""], 0, 0
@@ -103,16 +108,21 @@ def _sequence_case(w, nsec, ops, ansi, prefill=False):
     saved = termmod.Terminal.width
     termmod.Terminal.width = property(lambda self: w)
     try:
-        st = BufferedOutputStream()
-        out = Output(st, AnsiFormatter(forced=True) if ansi else PlainFormatter())
+        st = TtyBuffer() if ansi == "tty-plain" else BufferedOutputStream()
+        # "tty-plain": a stream that supports ANSI with a formatter that disables it (what --no-ansi installs): still an output without ANSI support
+        out = Output(st, AnsiFormatter(forced=True) if ansi is True else PlainFormatter())
+        ansi = ansi is True
         secs = [out.section() for _ in range(nsec)]
         model = [[] for _ in range(nsec)]          # current content lines per section, creation order
         appended = []                              # what a plain output must contain
-        if prefill:                                # every section starts with one distinct short line
-            for i, sec in enumerate(secs):
+        if prefill:                                # every section starts with one distinct short line; the oldest is then written again,
+            for i, sec in enumerate(secs):         # so the symbolic operations start after a redraw of all later sections has happened
                 sec.write_line("PQR"[i])
                 model[i].append("PQR"[i])
                 appended.append("PQR"[i])
+            secs[0].write_line("S")
+            model[0].append("S")
+            appended.append("S")
         for k, (si, kind, li) in enumerate(ops):
             si = si % nsec
             s, m = secs[si], model[si]
@@ -261,16 +271,16 @@ def conditions(tier):
     conds = [{"name": "smt_rows", "engine": "smt", "fn": smt_rows, "timeout": 600, "replay": _replay_rows,
               "bounds": "all 0 <= L <= 4096, 1 <= W <= 512 (cvc5 QF_BVFP over the translated add_content)"}]
     # (width, sections, symbolic operations, ANSI, sections prefilled with one line each, first operation pinned per condition)
-    configs = [(3, 2, 3, True, False, True), (5, 3, 2, True, True, False), (3, 2, 2, False, False, False)] if quick else \
-              [(2, 2, 3, True, False, True), (3, 3, 3, True, True, True), (5, 2, 3, True, False, True), (8, 3, 3, True, True, True), (3, 2, 3, False, False, True)]
+    configs = [(3, 2, 3, True, False, True), (5, 3, 2, True, True, False), (3, 2, 2, False, False, False), (3, 2, 2, "tty-plain", False, False)] if quick else \
+              [(2, 2, 3, True, False, True), (3, 3, 3, True, True, True), (5, 2, 3, True, False, True), (8, 3, 3, True, True, True), (3, 2, 3, False, False, True), (5, 2, 3, "tty-plain", False, True)]
     for w, nsec, nops, ansi, prefill, pin_first in configs:
         for s1 in range(nsec):
             firsts = [(k1, l1) for k1 in range(6) for l1 in (range(NLEN) if k1 <= 2 else [0])] if pin_first else [(None, None)]
             for k1, l1 in firsts:
-                conds.append({"name": "sequence[w=%d,%dsec%s,%dops,%s,first=s%d%s]" % (w, nsec, "+prefill" if prefill else "", nops, "ansi" if ansi else "plain", s1, "" if k1 is None else ".%s.%d" % (KINDS[k1], l1)),
+                conds.append({"name": "sequence[w=%d,%dsec%s,%dops,%s,first=s%d%s]" % (w, nsec, "+prefill" if prefill else "", nops, "ansi" if ansi is True else ("plain" if ansi is False else ansi), s1, "" if k1 is None else ".%s.%d" % (KINDS[k1], l1)),
                               "fn": sequence, "timeout": t,
                               "part": {"w": w, "nsec": nsec, "nops": nops, "ansi": ansi, "s1": s1, "k1": k1, "l1": l1, "prefill": prefill},
                               "bounds": "width %d, %d sections%s, %d operations, first on section %d%s; the others symbolic over sections x %r x text lengths {0,1,W,W+1,2W+1}; %s" % (
-                                  w, nsec, " (each prefilled with one line)" if prefill else "", nops, s1, "" if k1 is None else " = %s(text length #%d)" % (KINDS[k1], l1), KINDS, "ANSI" if ansi else "plain output")})
+                                  w, nsec, " (each prefilled with one line)" if prefill else "", nops, s1, "" if k1 is None else " = %s(text length #%d)" % (KINDS[k1], l1), KINDS, "ANSI" if ansi is True else ("plain output" if ansi is False else "ANSI-capable stream with a formatter that disables ANSI"))})
     conds.append({"name": "sequence_twin", "fn": sequence_twin, "timeout": t, "expect": "refute", "part": {"w": 3, "nsec": 2, "nops": 3, "ansi": True, "s1": 0, "k1": 0, "l1": 3}, "bounds": "reachability twin"})
     return conds
